@@ -47,6 +47,18 @@ theorem createSrc_congr (o : Opts) (rx rx' : Rx) (src : Option (List Nat))
     intro p _
     exact h (stripCR p)
 
+/-- … it is enough that they agree on the lines of THIS source -/
+theorem createSrc_congr_on (o : Opts) (rx rx' : Rx) (s : List Nat)
+    (h : ∀ p ∈ splitSrc s, maskBits o (rx.bits (stripCR p)) = maskBits o (rx'.bits (stripCR p))) :
+    createSrc o rx (some s) = createSrc o rx' (some s) := by
+  simp only [createSrc]
+  rw [← create_mask o true (sourceBits rx s), ← create_mask o true (sourceBits rx' s)]
+  congr 1
+  simp only [sourceBits, List.map_map]
+  apply List.map_congr_left
+  intro p hp
+  exact h p hp
+
 /-! ### source lines -/
 
 theorem lineAt_sourceBits (rx : Rx) (src : List Nat) (n : Nat) :
